@@ -11,7 +11,7 @@ import time
 from vf.core import runner, sim, check
 from vf import families as F
 
-DEFAULT_BUDGET = {'quick': 420.0, 'thorough': 3 * 3600.0}
+DEFAULT_BUDGET = {'quick': 1500.0, 'thorough': 3 * 3600.0}
 
 
 def payload_lines(payload):
